@@ -78,13 +78,31 @@ HOSTILE = [
     ("string-huge-index", "\"abc\"[9223372036854775807]"),
     ("list-neg-mul", "[1] * -1"),
 ]
+# cyclic containers.  Comparing, ordering, marshalling and converting them to Go values (which is what a host does with a
+# returned result) recurse without bound: the known finding.  Printing / stringifying them is guarded in the
+# implementation (Inspect marks the container it is printing) and MUST return normally.
 CYCLIC = [
     ("cyclic-result", "l := [1]\nl.append(l)\nl"),
-    ("cyclic-eq", "l := [1]\nl.append(l)\nl == l"),
-    ("cyclic-print", "l := [1]\nl.append(l)\nstring(l)"),
-    ("cyclic-map", "m := {}\nm[\"self\"] = m\nm == m"),
-    ("cyclic-json", "import json\nl := [1]\nl.append(l)\njson.marshal(l)"),
-    ("cyclic-two", "a := [1]\nb := [a]\na.append(b)\na == b"),
+    ("cyclic-result-two", "a := [1]\nb := [a]\na.append(b)\na"),
+    ("cyclic-result-map", "m := {}\nl := [m]\nm[\"l\"] = l\nl"),
+    ("cyclic-eq", "l := [1]\nl.append(l)\nl == l\n1"),
+    ("cyclic-map", "m := {}\nm[\"self\"] = m\nm == m\n1"),
+    ("cyclic-json", "import json\nl := [1]\nl.append(l)\njson.marshal(l)\n1"),
+    ("cyclic-two", "a := [1]\nb := [a]\na.append(b)\nc := [1]\nd := [c]\nc.append(d)\na == c\n1"),
+    ("cyclic-sorted", "l := [1]\nl.append(l)\nsorted([l, l])\n1"),
+    ("cyclic-in", "l := [1]\nl.append(l)\nl in [l]\n1"),
+]
+CYCLIC_PRINT = [
+    ("print-self", "l := [1]\nl.append(l)\nstring(l)"),
+    ("print-two", "a := [1]\nb := [a]\na.append(b)\nstring(a)"),
+    ("print-two-b", "a := [1]\nb := [a]\na.append(b)\nprint(b)\n'{a} {b}'"),
+    ("print-three", "a := [1]\nb := [a]\nc := [b]\na.append(c)\nstring(c)"),
+    ("print-map-list", "m := {}\nl := [m]\nm[\"l\"] = l\nstring(m) + string(l)"),
+    ("print-map-self", "m := {}\nm[\"self\"] = m\nprint(m)\n1"),
+    ("print-error", "a := [1]\nb := [a]\na.append(b)\ntry(func() { error(a) }, 1)"),
+    ("print-hash", "l := [1]\nl.append(l)\nhash(string(l))"),
+    ("print-nested-fresh", "a := [1]\nb := [a, a]\na.append(b)\nstring([a, b, [a]])"),
+    ("len-keys", "m := {}\nm[\"self\"] = m\nl := [m]\nl.append(l)\n[len(l), keys(m), len(m)]"),
 ]
 
 
@@ -198,6 +216,8 @@ def run(res):
         inputs.append(("hostile:" + label, s))
     for label, s in CYCLIC:
         inputs.append(("cyclic:" + label, s))
+    for label, s in CYCLIC_PRINT:
+        inputs.append(("cyclic-print:" + label, s))
     cdir = os.path.join(C.VERIF, "corpus", "C03")
     if os.path.isdir(cdir):
         for f in sorted(os.listdir(cdir)):
@@ -221,8 +241,8 @@ def run(res):
 
     # cyclic inputs each in their own child (they are expected to kill it): keeps the others in big batches
     nsh = C.NCPU
-    order = [k for k in range(len(inputs)) if not inputs[k][0].startswith("cyclic:")]
-    cyc = [k for k in range(len(inputs)) if inputs[k][0].startswith("cyclic:")]
+    order = [k for k in range(len(inputs)) if not inputs[k][0].startswith("cyclic")]
+    cyc = [k for k in range(len(inputs)) if inputs[k][0].startswith("cyclic")]
     shards = [order[s::nsh] for s in range(nsh)]
     outcomes = [None] * len(inputs)
 
@@ -250,9 +270,10 @@ def run(res):
         if not bad:
             continue
         if kind.startswith("cyclic:"):
-            res.known_finding("a container that (directly or indirectly) contains itself makes ==, string/print, Interface, "
-                              "json and the host's Inspect recurse without bound: fatal stack overflow of the embedding "
-                              "process (e.g. `l := [1]; l.append(l); l == l`)")
+            res.known_finding("a container that (directly or indirectly) contains itself makes ==, in, sorted, json and the "
+                              "conversion to Go values (Interface: what a host does with a returned result) recurse without "
+                              "bound: fatal stack overflow of the embedding process (e.g. `l := [1]; l.append(l); l == l`); "
+                              "printing / stringifying such a container is guarded and is checked")
             continue
         oracle.append({"kind": "oracle-violation", "input_kind": kind, "source": src if len(src) < 4000 else src[:2000] + " ...[%d chars]" % len(src),
                        "outcome": o[:400],
@@ -267,7 +288,7 @@ def run(res):
                    "Program.String, compiler.Compile, risor.Eval with the default globals (minus the modules that reach the real "
                    "machine) and the host-side Inspect/Interface/Equals/HashKey of the result, in child processes under a memory limit "
                    "and a watchdog; a Go panic escaping an API call, the death of the child or a hang is a violation. "
-                   "Non-trivial = distinct inputs." % (len(HOSTILE) + len(CYCLIC)))
+                   "Non-trivial = distinct inputs." % (len(HOSTILE) + len(CYCLIC) + len(CYCLIC_PRINT)))
     cov["samples"] = [{"kind": inputs[k][0], "source": inputs[k][1][:200], "outcome": outcomes[k]} for k in (0, 5, len(HOSTILE) + 10, len(inputs) - 1)]
     cov["input_distribution"] = hist
     cov["outcome_distribution"] = dict(sorted(stage_hist.items(), key=lambda kv: -kv[1])[:20])
